@@ -26,8 +26,11 @@ def make_frame(rng, target, n=None, ties=False):
         r = pd.qcut(pd.Series(v).rank(method='first'), k, labels=False); return pd.Series([names[int(i)] for i in r], dtype=object)
     X['ca'] = cat(z1 + noise(0.4), 3, ['m', 'a', 'z']); X['ca_dup'] = cat(z1 + noise(0.1), 3, ['u', 'v', 'w']); X['cb'] = cat(z2 + noise(0.6), 4, ['p', 'q', 'r', 's'])
     X['cnoise'] = cat(z3, 3, ['x1', 'x2', 'x3']); X['cconst'] = pd.Series(['only'] * n, dtype=object)
-    cn = cat(z2 + noise(0.3), 3, ['k1', 'k2', 'k3']); cn[np.array([rng.random() for _ in range(n)]) < 0.25] = np.nan; X['cnan'] = cn
-    quant = ['qa', 'qa_dup', 'qa_neg', 'qb', 'qnoise', 'qhalf', 'qconst', 'qnan', 'qchain_b', 'qchain_c']; qual = ['ca', 'ca_dup', 'cb', 'cnoise', 'cconst', 'cnan']
+    cz = cat(np.array([rng.gauss(0, 1) for _ in range(n)]), 3, ['g', 'h', 'i'])
+    X['cchain_b'] = X['ca'] + '|' + cz; X['cchain_c'] = cz                                        # ca ~ cchain_b ~ cchain_c, but ca and cchain_c unrelated
+    cn = cat(z2 + noise(0.3), 3, ['k1', 'k2', 'k3']); X['cnan_full'] = cn.map(lambda v: 'full_' + v)                 # the same categories without missing values (fully redundant with cnan)
+    cn = cn.copy(); cn[np.array([rng.random() for _ in range(n)]) < 0.25] = np.nan; X['cnan'] = cn
+    quant = ['qa', 'qa_dup', 'qa_neg', 'qb', 'qnoise', 'qhalf', 'qconst', 'qnan', 'qchain_b', 'qchain_c']; qual = ['ca', 'ca_dup', 'cb', 'cnoise', 'cconst', 'cnan', 'cnan_full', 'cchain_b', 'cchain_c']
     if ties:
         X['ca_ren'] = X['ca'].map(lambda v: 'ren_' + v); quant.append('qa_x2'); qual.append('ca_ren')
     return X, y, quant, qual
@@ -159,6 +162,34 @@ def one(arg):
         rec('select#post.copy_of_target_is_returned', r2[0] == 'ok' and 'qtarget' in list(r2[1]) and 'qtarget_mono' in list(r2[1]), 'user-supplied R_measure: copy / monotone image of the target gives %r' % (r2[1] if r2[0] == 'ok' else r2[0],),
             dict(feature='qtarget', what='copy_of_target', default_measures=False, measure='R_measure'))
     if prop == 'C14' and kind == 'ClassificationSelector':
+        # user-supplied Cramer's V as measure AND as filter (features holding NaN included)
+        from AutoCarver.selectors.measures import cramerv_measure
+        from AutoCarver.selectors.filters import cramerv_filter
+        n_best0, tc0 = n_best, tc; n_best, tc = len(qual), (0.9 if seed % 2 else 0.8)          # (own configuration for this sub-check: every qualitative feature may be returned, threshold just below a full redundancy)
+        r3 = outcome(lambda: make_selector(kind, [], qual, n_best, thresh_corr=tc, qualitative_measures=[cramerv_measure], qualitative_filters=[cramerv_filter]).select(X, y))
+        def oracle_cv(feats):
+            vals = {}
+            for f in feats:
+                x = X[f]
+                if len(x.mode(dropna=True)) and (x == x.mode(dropna=True).values[0]).mean() >= 0.999: continue
+                try: v = cramerv(x, y)
+                except Exception: continue
+                if not math.isnan(v): vals[f] = v
+            ranked = sorted(vals, key=lambda f: -vals[f]); amb = any(abs(vals[a] - vals[b]) < 1e-12 for a, b in zip(ranked, ranked[1:])); kept = []
+            for f in ranked:
+                cs = [cramerv(X[f], X[g]) for g in kept]
+                if any(abs(c - tc) < 1e-9 for c in cs): amb = True
+                if not any(c > tc for c in cs): kept.append(f)
+            return kept[:n_best], amb, vals
+        if r3[0] == 'ok':
+            e3, a3, v3 = oracle_cv(qual)
+            if not a3: rec('select#post.best_ranked_mutually_unassociated_features', list(r3[1]) == e3, 'user-supplied cramerv measure + filter: returned %r, recomputation %r (V %r)' % (list(r3[1]), e3, {k: round(v, 4) for k, v in v3.items()}), dict(dtype='str', default_measures=False, measure='cramerv'))
+        else: rec('select#raises.nothing_on_valid_input', False, 'cramerv measure/filter: %s' % r3[0], dict(default_measures=False))
+        n_best, tc = n_best0, tc0
+        # a feature type with ONE candidate whose measure is undefined / fails a threshold returns nothing for that type
+        for lone, dt in (('qconst', 'float'), ('cconst', 'str')):
+            r4 = outcome(lambda: make_selector(kind, [lone] if dt == 'float' else [], [lone] if dt == 'str' else [], 1, thresh_corr=tc).select(X, y))
+            rec('select#post.feature_with_undefined_measure_is_left_out', r4[0] == 'ok' and lone not in list(r4[1]), 'a lone constant %s feature: %r' % (dt, r4[1] if r4[0] == 'ok' else r4[0]), dict(dtype=dt, feature=lone))
         # two user-supplied association measures (thresholds set so that both are evaluated): at most n_best PER measure, i.e. the union of the per-measure selections
         from AutoCarver.selectors.measures import R_measure, kruskal_measure
         def eta(x, yy):
